@@ -119,8 +119,9 @@ class RecordingCV:
     cross-validator whose train set is *not* the complement of the test set).
     """
 
-    def __init__(self, inner, label, thin=0.0, thin_seed=0, as_list=False):
+    def __init__(self, inner, label, thin=0.0, thin_seed=0, as_list=False, remake=None):
         self.as_list = bool(as_list)  # split() returns a list instead of a generator
+        self.remake = remake  # builds an equally seeded inner cross-validator again (only where a replay is well defined), else None
         self.inner = inner
         self.label = label
         self.thin = float(thin)
@@ -155,6 +156,16 @@ class RecordingCV:
 
     def get_n_splits(self, X=None, y=None, groups=None):  # noqa: N803
         return self.inner.get_n_splits(X, y, groups)
+
+    def replay(self, X):  # noqa: N803
+        """The splits an equally configured and seeded cross-validator yields for the feature matrix X (None if not replayable)."""
+        if self.remake is None:
+            return None
+        twin = RecordingCV(self.remake(), self.label, self.thin, self.thin_seed)
+        out = list(twin._split(X))
+        with _CALLS_LOCK:
+            _CALLS.pop(twin.uid, None)
+        return out
 
     def __repr__(self):
         return "RecordingCV(%s)" % self.label
